@@ -127,6 +127,10 @@ def build(rng):
             evs = [ev for ev in GROUPS[g] if ev in present]
             rng.shuffle(evs)
             a = dict(kind="notify", g=g, evs=evs[: rng.randrange(1, len(evs) + 1)])
+            if rng.random() < 0.12:
+                # the list an application hands to notify_once may name an event more than once (it appended every change):
+                # one notification per listed occurrence, ids in list order
+                a["evs"] = a["evs"] + [rng.choice(a["evs"])]
         elif r < 0.97 and free:
             # a late or duplicate unsubscribe for an endpoint that is not subscribed (delivered through the listener interface)
             a = dict(kind="unsub-unknown", g=g, ep=rng.choice(free), via=rng.choice(SUBSCRIBERS))
@@ -532,8 +536,16 @@ def wrap_walk(spec, ctx):
             # the second event is named by its full 16-bit wire id (0x8000 | id): the flag is OR-ed in, so both spellings mean
             # the same notification
             eg.values[(0x31 + i) | (0x8000 if i == 1 else 0)] = bytes([i, i])
-        for ep in eps:
-            eg.subscribe(ep)
+        eg.subscribe(eps[0])
+        # the second long-term subscriber comes in through the service's listener interface, its endpoint built with the plain
+        # protocol number (the option class takes `Union[L4Protocols, int]`) instead of the enum member
+        import someip.sd as S
+        ep6 = H.IPv6EndpointOption(address=ipaddress.IPv6Address("2001:db8::17:21"), l4proto=17, port=6102)
+        try:
+            svc.client_subscribed(S.EventgroupSubscription(service_id=SID, instance_id=1, major_version=MAJ, id=1, counter=0, ttl=3,
+                                                           endpoints=frozenset({ep6})), ("10.0.17.12", 30490))
+        except S.NakSubscription as exc:
+            res["refused"] = repr(exc)
         res.update(svc=svc, eg=eg)
 
     # with "crowd": after three rounds very many other endpoints subscribe, get their initial notifications and leave again;
@@ -554,6 +566,9 @@ def wrap_walk(spec, ctx):
         h.at(t, lambda: res["eg"].notify_once(list(res["eg"].values.keys())))
     h.run(t + 1.0)
     longterm = {("10.0.17.21", 6101), ("2001:db8::17:21", 6102, 0, 0)}
+    if res.get("refused"):
+        ctx.violation("subscription-naming-exactly-one-endpoint-refused", dict(endpoint="2001:db8::17:21 port 6102, l4proto given as the int 17",
+                                                                               exc=res["refused"]), dict(kind="wrap", spec=spec))
     per = collections.defaultdict(list)
     for tt, _it, data, dst in res["svc"].transport.sent:
         msgs, broken = refwire.split_datagram(data)
